@@ -219,6 +219,7 @@ pub struct ZervCall {
     /// PATH override (default: the run's bin directory with the proxy as the only git)
     pub path: Option<String>,
     pub rm_cwd: bool,
+    pub stdout: crate::proc::Stdout,
 }
 
 impl ZervCall {
@@ -232,6 +233,7 @@ impl ZervCall {
             stdin: Stdin::Null,
             path: None,
             rm_cwd: false,
+            stdout: crate::proc::Stdout::Capture,
         }
     }
     pub fn args_string(&self) -> String {
@@ -272,6 +274,7 @@ pub fn run_zerv(ctx: &Ctx, rd: &RunDir, call: &ZervCall, stats: &mut Stats) -> O
         stdin: call.stdin.clone(),
         rm_cwd: call.rm_cwd,
         mem_limit: Some(8 << 30),
+        stdout: call.stdout,
     };
     stats.zerv_spawns += 1;
     proc::run(&spec)
